@@ -28,17 +28,29 @@ class GuardedList(list):
         list.append(self, x)
 
 
+class Cell:
+    """an ordinary (hashable, mutable) object kept in the context: counter 'o' bumps its
+    attribute in place"""
+
+    def __init__(self):
+        self.k = 0
+
+    def __repr__(self):
+        return 'Cell(%r)' % self.k
+
+
 def new_context(extra=None):
     ctx = {'log': GuardedList(), 'glog': GuardedList(), 'gv': {}, 'cv': {}, 'fv': {}, 'v': 0, 'w': [],
-           'n': [[]]}
+           'n': [[]], 'o': Cell()}
     if extra:
         ctx.update(extra)
     return ctx
 
 
 COUNTERS = {'v': ('v = v + 1', 'v'), 'w': ('w.append(1)', 'len(w)'),
-            'n': ('n[0].append(1)', 'len(n[0])')}
-OLD_EXPR = {'v': '__old__.v', 'w': 'len(__old__.w)', 'n': 'len(__old__.n[0])'}
+            'n': ('n[0].append(1)', 'len(n[0])'), 'o': ('o.k = o.k + 1', 'o.k')}
+OLD_EXPR = {'v': '__old__.v', 'w': 'len(__old__.w)', 'n': 'len(__old__.n[0])',
+            'o': '__old__.o.k'}
 
 
 def _sends(lst, val='v'):
@@ -116,7 +128,7 @@ def cond_code_fn(cid, with_old, counter='v'):
     return "chk(%d, None, %s)" % (cid, sr)
 
 
-_TID = re.compile(r"log\.append\(\('tr', (\d+), (?:v|len\(w\)|len\(n\[0\]\)), time\)\)")
+_TID = re.compile(r"log\.append\(\('tr', (\d+), (?:v|len\(w\)|len\(n\[0\]\)|o\.k), time\)\)")
 _SID = re.compile(r"log\.append\(\('(?:en|ex)', (\d+), v, time\)\)")
 
 
